@@ -13,6 +13,8 @@ ID = "C07"
 
 SHAPES = {
     "z0": dict(ps=[], asy=False), "z1": dict(ps=[("a", "i64", "11")], asy=False), "z2": dict(ps=[("a", "i64", "11"), ("b", "i64", "12")], asy=False),
+    # like z2, but trait and impl blocks are stamped out by macro_rules; the parameters are spelled identically (hygiene)
+    "zh": dict(ps=[("$p", "i64", "11"), ("a", "i64", "12")], asy=False, stamped=True),
     "zs": dict(ps=[("s", "&str", '"s11"'), ("n", "i64", "12")], asy=False),
     "zb": dict(ps=[("s", "&'x str", '"s11"')], asy=False, borrowed=True),
     # the same with the named lifetime on the receiver / deps reference as well
@@ -87,6 +89,9 @@ def render(s):
          "    pub trait Dep1 { fn dep1(&self) -> i64; } pub trait Dep2 { fn dep2(&self) -> i64; }",
          "    impl Dep1 for ::entrait::Impl<AppA> { fn dep1(&self) -> i64 { 5 } } impl Dep1 for ::entrait::Impl<AppB> { fn dep1(&self) -> i64 { 5 } }",
          "    impl Dep2 for ::entrait::Impl<AppA> { fn dep2(&self) -> i64 { 6 } } impl Dep2 for ::entrait::Impl<AppB> { fn dep2(&self) -> i64 { 6 } }"]
+    stamped = any(SHAPES[x].get("stamped") for x in w)
+    if stamped:
+        L.append("    macro_rules! stamp { ($p:ident) => {")
     L.append("    #[::entrait::entrait(TrImpl, delegate_by = %s)]" % ("ref" if dyn else "DelegateTr"))
     if at:
         L.append("    " + at)
@@ -103,6 +108,9 @@ def render(s):
         for i, x in enumerate(w):
             L.append("        " + impl_fn(s, x, i, t))
         L.append("    }")
+    if stamped:
+        L.append("    } }")
+        L.append("    stamp!(a);")
     for app, t in (("AppA", "X1"), ("AppB", "X2")):
         L.append("    pub struct %s { pub x: %s }" % (app, t))
         if dyn:
